@@ -12,6 +12,27 @@ pub open spec fn entries_sorted<K: RainDbKeyType>(es: Seq<BlockEntry<K>>) -> boo
     forall|i: int, j: int| 0 <= i < j < es.len() ==> key_lt(&(#[trigger] es[i]).key, &(#[trigger] es[j]).key)
 }
 
+/// In a sorted entry list everything at or before an entry smaller than the target is smaller.
+pub proof fn lemma_sorted_lower<K: RainDbKeyType>(es: Seq<BlockEntry<K>>, target: &K, m: int)
+    requires key_order_ok::<K>(), entries_sorted(es), 0 <= m < es.len(), key_lt(&es[m].key, target)
+    ensures forall|i: int| 0 <= i <= m ==> key_lt(&(#[trigger] es[i]).key, target)
+{
+    assert forall|i: int| 0 <= i <= m implies key_lt(&(#[trigger] es[i]).key, target) by {
+        if i < m { lemma_key_lt_trans(&es[i].key, &es[m].key, target); }
+    }
+}
+pub proof fn lemma_sorted_upper<K: RainDbKeyType>(es: Seq<BlockEntry<K>>, target: &K, m: int)
+    requires key_order_ok::<K>(), entries_sorted(es), 0 <= m < es.len(), !key_lt(&es[m].key, target)
+    ensures forall|i: int| m <= i < es.len() ==> !key_lt(&(#[trigger] es[i]).key, target)
+{
+    assert forall|i: int| m <= i < es.len() implies !key_lt(&(#[trigger] es[i]).key, target) by {
+        if i > m && key_lt(&es[i].key, target) {
+            lemma_key_not_lt_trans(&es[m].key, target, &es[i].key);
+            assert(key_lt(&es[m].key, &es[i].key));
+        }
+    }
+}
+
 //@impl src/tables/block.rs :: impl<K> RainDbIterator for BlockIter<K> where K: RainDbKeyType,
     open spec fn it_wf(&self) -> bool {
         key_order_ok::<K>() && entries_sorted((*self.block_entries)@) && (*self.block_entries)@.len() <= usize::MAX / 2
@@ -25,6 +46,7 @@ pub open spec fn entries_sorted<K: RainDbKeyType>(es: Seq<BlockEntry<K>>) -> boo
 //@endfn
 //@fn seek props: C04 C13 C01
 //@sig
+    ensures r is Ok,
 //@body-start
         let ghost es = (*self.block_entries)@;
 //@loop 1
@@ -35,6 +57,11 @@ pub open spec fn entries_sorted<K: RainDbKeyType>(es: Seq<BlockEntry<K>>) -> boo
                 forall|i: int| 0 <= i < left ==> key_lt(&(#[trigger] es[i]).key, target), // [inv-left-part-smaller]
                 forall|i: int| right <= i < es.len() ==> !key_lt(&(#[trigger] es[i]).key, target), // [inv-right-part-not-smaller]
             decreases right - left,
+//@after /let mid_entry = &self.block_entries\[mid\];/
+            proof {
+                if key_lt(&es[mid as int].key, target) { lemma_sorted_lower(es, target, mid as int); }
+                else { lemma_sorted_upper(es, target, mid as int); }
+            }
 //@endfn
 //@fn seek_to_first props: C04 C13
 //@sig
